@@ -48,7 +48,7 @@ package conf
 //@   ensures[C03,C18] from_int32: istype(data, int32) ==> result1 == nil && result0.(int) == data.(int32)
 //@   ensures[C03,C18] from_string: istype(data, string) ==> (result1 == nil) == atoi_ok(data.(string)) && (result1 == nil ==> result0.(int) == atoi_val(data.(string)))
 //@   ensures[C18] from_float_same_number: istype(data, float64) && result1 == nil ==> finrange(data.(float64), int) && result0.(int) == ftrunc(data.(float64))
-//@   ensures[C03,C13] every_float_in_the_int_range_is_accepted: istype(data, float64) && finrange(data.(float64), int) ==> result1 == nil
+//@   ensures[C03,C13,C18] every_float_in_the_int_range_is_accepted: istype(data, float64) && finrange(data.(float64), int) ==> result1 == nil
 //@   ensures[C03] from_bool: istype(data, bool) ==> result1 == nil && result0.(int) == ite(data.(bool), 1, 0)
 //@   ensures[C03] unsupported: !istype(data, int) && !istype(data, int64) && !istype(data, int32) && !istype(data, string) && !istype(data, float64) && !istype(data, bool) ==> result1 != nil
 
@@ -59,7 +59,7 @@ package conf
 //@   ensures[C03,C13] from_float64: istype(data, float64) ==> result1 == nil && result0 == data
 //@   ensures[C03,C18] from_float32: istype(data, float32) ==> result1 == nil && result0 == box(float64(data.(float32)))
 //@   ensures[C18] from_int_same_number: istype(data, int) && result1 == nil ==> finrange(result0.(float64), int) && ftrunc(result0.(float64)) == data.(int)
-//@   ensures[C03,C13] every_int_is_accepted: istype(data, int) ==> result1 == nil
+//@   ensures[C03,C13,C18] every_int_is_accepted: istype(data, int) ==> result1 == nil
 //@   ensures[C03] from_string: istype(data, string) ==> (result1 == nil) == parsefloat_ok(data.(string)) && (result1 == nil ==> result0.(float64) == parsefloat_val(data.(string)))
 //@   ensures[C03] unsupported: !istype(data, int) && !istype(data, string) && !istype(data, float64) && !istype(data, float32) ==> result1 != nil
 
